@@ -13,7 +13,7 @@ func (msc *multiShardCoordinator) ComputeIdFromBytes(address []byte) (r uint32)
   mode bv
   pure
   requires inv(msc)
-  ensures  valid-shard: r < msc.numberOfShards || (r == 4294967295 && len(address) > 25 && core.IsSmartContractAddress(address))
+  ensures  valid-shard: r < msc.numberOfShards || (r == 4294967295 && len(address) > 25 && core.IsSmartContractAddress(address) && address[len(address)-1] == 255 && (forall j :: 0 <= j && j < 15 ==> address[10 + j] == 0))
 
 loop 1
   invariant 0 <= i && i <= len(buffNeeded)
